@@ -46,8 +46,13 @@ u32 getpagesize(void) { return 4096; }
 void _dispatch_log(u64 a, ...) { }
 static u64 errno_cell; u64 __errno_location(void) { return errno_cell; }
 u64 _Block_copy(u64 b) { return b; }
-static int handler_released; static u64 HANDLER;
-void _Block_release(u64 b) { if (b == HANDLER) handler_released++; }
+static int handler_released, handler2_released; static u64 HANDLER, HANDLER2, OP2;
+#ifndef TWO
+#define TWO 0      /* 1: a second operation of the same direction and channel is queued behind the first (submission order) */
+#endif
+#define NOPS_ (1 + TWO)
+#define S2BASE (1ull << 50)          /* the second operation's submitted data lives at these offsets of the abstract byte space: any mix-up with the first operation's bytes is an interval mismatch */
+void _Block_release(u64 b) { if (b == HANDLER) handler_released++; if (TWO && b == HANDLER2) handler2_released++; }
 /* ---- abstract data objects ---- */
 #define NDATA 24
 static u64 d_start[NDATA], d_len[NDATA]; static int d_refs[NDATA]; static int ndata;
@@ -63,7 +68,9 @@ void dispatch_release(u64 o) { if (o == TOK_OPQ || o == TOK_TARGETQ) { q_release
 /* read buffers */
 static u64 rb_addr, rb_size, rb_fill, rb_pos; static int nrbuf; static _Bool rb_live, rb_owned_by_data;
 static u64 consumed;          /* bytes taken from the descriptor by read() so far */
+static u64 OP;
 u32 posix_memalign(u64 pp, u64 align, u64 size) {
+  ASSERT(pp == OP + P_OFF_op_buf, "SUBMISSION ORDER: a read buffer is allocated for an operation other than the first of the stream (a later operation performs I/O before the earlier one has completed)");
   ASSERT(!rb_live || rb_owned_by_data || rb_fill == 0, "CONSERVE: a new read buffer replaces one that still holds undelivered bytes");
   ASSERT(size >= 1, "BUFFER: the read buffer has room for at least one byte (a zero-length read would be taken for end of file)");
   rb_addr = RBUF_BASE + ((u64)nrbuf << 40); nrbuf++; rb_size = size; rb_fill = 0; rb_pos = consumed; rb_live = 1; rb_owned_by_data = 0;
@@ -137,7 +144,7 @@ u64 write(u32 fd, u64 buf, u64 len) {
 u64 pread(u32 fd, u64 buf, u64 len, u64 off) { ASSERT(0, "pread on a stream operation"); return 0; }
 u64 pwrite(u32 fd, u64 buf, u64 len, u64 off) { ASSERT(0, "pwrite on a stream operation"); return 0; }
 /* ---- queues, groups, sources ---- */
-static int closeq_susp, src_susp = 1 /* the descriptor source starts suspended */, grp_leave, resched, barrier_blocks, os_disposes; static u64 OP, STREAM, FDE, CHAN;
+static int closeq_susp, src_susp = 1 /* the descriptor source starts suspended */, grp_leave, resched, barrier_blocks, os_disposes, os_disposes2; static u64 STREAM, FDE, CHAN;
 void dispatch_suspend(u64 o) { if (o == TOK_CLOSEQ) closeq_susp++; else if (o == TOK_SOURCE) src_susp++; else ASSERT(0, "suspend of an unexpected object"); }
 void dispatch_resume(u64 o) { if (o == TOK_CLOSEQ) { closeq_susp--; ASSERT(closeq_susp >= 0, "CLEANUP: the close queue is resumed more often than suspended (the clean-up handler could run before the handlers)"); } else if (o == TOK_SOURCE) { src_susp--; ASSERT(src_susp >= 0, "the descriptor source is resumed more often than suspended (over-resume crashes)"); } else ASSERT(0, "resume of an unexpected object"); }
 void dispatch_group_enter(u64 g) { ASSERT(0, "group enter in these paths"); }
@@ -151,7 +158,19 @@ static u64 pending_barrier_block, allow_free_cell;   /* allocated up front: allo
 void _dispatch_fd_entry_cleanup_operations(u64 fde, u64 ch);
 /* the handler (a block whose invoke function is this harness function) = the oracle */
 static int invocations, done_count, in_handler; static u64 delivered; static u32 done_err; static _Bool stopped_at_some_point; static u64 g_high;
+static int invocations2, done_count2; static u64 in_length2;
 void vp_handler(u64 blk, _Bool done, u64 data, u32 err) {
+#if TWO
+  if (blk == HANDLER2) {   /* the second operation: within one step it can only be completed (error / cancellation), and only after the first one has seen done */
+    ASSERT(in_handler == 0, "REENTRY");
+    ASSERT(done_count == 1, "SUBMISSION ORDER: the handler of a later operation runs before the earlier operation of the same direction has seen done");
+    ASSERT(done_count2 == 0, "DONE: the handler is invoked again after it has seen done");
+    invocations2++; ASSERT(done && err != 0, "a queued operation that never performed I/O completes in one done invocation that carries the error");
+    if (DIR == DOP_DIR_READ) ASSERT(data == 0 || D_len(data) == 0, "a read that never performed I/O delivers no data");
+    else ASSERT(data != 0 && D_start(data) == S2BASE && D_len(data) == in_length2, "CONSERVE: a write that never performed I/O reports all of its data as unwritten");
+    if (done) done_count2++;
+    return; }
+#endif
   ASSERT(blk == HANDLER, "handler block");
   ASSERT(in_handler == 0, "REENTRY: the handler is entered while it is running");
   in_handler++; invocations++;
@@ -182,6 +201,9 @@ void dispatch_async(u64 q, u64 blk) {
   ASSERT(0, "asynchronous block on an unexpected queue"); }
 void _dispatch_fd_entry_cleanup_operations(u64 fde, u64 ch) { ASSERT(fde == FDE, "descriptor entry"); _dispatch_stream_cleanup_operations(STREAM, ch); }   /* the hop to the stream queue is taken at once */
 void _os_object_dispose(u64 o) {
+#if TWO
+  if (o == OP2) { os_disposes2++; ASSERT(os_disposes2 == 1 && os_disposes == 1, "SUBMISSION ORDER: the second operation is disposed once, after the first"); if (os_disposes2 != 1) return; _dispatch_operation_dispose(OP2, allow_free_cell); return; }
+#endif
   ASSERT(o == OP, "only the operation may lose its last reference"); if (o != OP) return;
   os_disposes++; ASSERT(os_disposes == 1, "the operation is disposed once"); if (os_disposes != 1) return;
   _dispatch_operation_dispose(OP, allow_free_cell); }
@@ -197,12 +219,25 @@ static _Bool inv_read(u64 dl, u64 bl, u64 bs, _Bool hasbuf, u64 total) {
   return a && b && c; }
 static _Bool inv_write(u64 bl, u64 bs, _Bool hasbuf, u64 total) {
   return total < in_length && bl <= total && (hasbuf ? (bs >= 1 && bl < bs && bs <= in_length - (total - bl)) : bl == 0); }
+static u64 subm2;
+#if TWO
+static void check_untouched2(void) {   /* the second operation has not been started */
+  ASSERT(IR_LD64(OP2 + P_OFF_op_total) == 0 && IR_LD64(OP2 + P_OFF_op_buf) == 0 && IR_LD64(OP2 + P_OFF_op_buflen) == 0 && IR_LD64(OP2 + P_OFF_op_undelivered) == 0 && IR_LD64(OP2 + P_OFF_op_bufdata) == 0
+         && IR_LD64(OP2 + P_OFF_op_data) == subm2 && IR_LD32(OP2 + P_OFF_ref) == 0 && invocations2 == 0 && os_disposes2 == 0 && handler2_released == 0,
+         "SUBMISSION ORDER: an operation queued behind another one of the same direction is not touched before that one completes"); }
+#endif
 static void check_inflight_state(void) {
   u64 h = STREAM + P_OFF_st_ops, l = OP + P_OFF_op_list;
+#if TWO
+  u64 l2 = OP2 + P_OFF_op_list;
+  ASSERT(IR_LD64(h) == OP && IR_LD64(h + 8) == OP2 && IR_LD64(l) == OP2 && IR_LD64(l + 8) == 0 && IR_LD64(l2) == 0 && IR_LD64(l2 + 8) == OP, "QUEUE: while the first operation has not completed the list is (first, second) in submission order");
+  check_untouched2();
+#else
   ASSERT(IR_LD64(h) == OP && IR_LD64(h + 8) == OP && IR_LD64(l) == 0 && IR_LD64(l + 8) == 0, "QUEUE: an operation that has not completed is still the only element of the stream's list");
-  ASSERT(IR_LD32(CHAN + P_OFF_ref) == 10 && IR_LD32(OP + P_OFF_ref) == 0, "REFS: between two runs of the stream handler the operation holds one reference to the channel and is itself referenced once");
+#endif
+  ASSERT(IR_LD32(CHAN + P_OFF_ref) == 9 + NOPS_ && IR_LD32(OP + P_OFF_ref) == 0, "REFS: between two runs of the stream handler every queued operation holds one reference to the channel and is itself referenced once");
   ASSERT(grp_leave == 0 && handler_released == 0, "an operation that is still in flight keeps its barrier-group membership and its handler");
-  ASSERT(closeq_susp == 1 + (barrier_blocks == 1), "CLEANUP: between two runs exactly the operation (and a pending descriptor clean-up) hold the close queue");
+  ASSERT(closeq_susp == NOPS_ + (barrier_blocks == 1), "CLEANUP: between two runs exactly the queued operations (and a pending descriptor clean-up) hold the close queue");
   u64 total = IR_LD64(OP + P_OFF_op_total), data = IR_LD64(OP + P_OFF_op_data), buf = IR_LD64(OP + P_OFF_op_buf), bl = IR_LD64(OP + P_OFF_op_buflen), bs = IR_LD64(OP + P_OFF_op_bufsiz);
   ASSERT(data != 0, "the operation always has a data object");
   u64 dl = data ? D_len(data) : 0; _Bool hasbuf = buf != 0;
@@ -229,12 +264,12 @@ static void check_inflight_state(void) {
 static void repin(void) {   /* the pointers the library will follow are known on this path: store them back as constants - after the join of a step's alternatives they are
                                if-then-else terms, and following such a pointer through the paged memory does not scale (checked equal by check_inflight_state first) */
   u64 h = STREAM + P_OFF_st_ops, l = OP + P_OFF_op_list;
-  IR_ST32(CHAN + P_OFF_ref, 10); IR_ST32(OP + P_OFF_ref, 0); IR_ST64(h, OP); IR_ST64(h + 8, OP); IR_ST64(l, 0); IR_ST64(l + 8, 0); }
+  ASSERT(!TWO, "harness: bounded histories are single-operation"); IR_ST32(CHAN + P_OFF_ref, 10); IR_ST32(OP + P_OFF_ref, 0); IR_ST64(h, OP); IR_ST64(h + 8, OP); IR_ST64(l, 0); IR_ST64(l + 8, 0); }
 static u64 in_total, in_dl, in_bl, in_bs, in_undel; static u8 in_hasbuf, in_chflags, in_trigger, in_fderr, in_tflag;
 void harness(void) {
   ir_init_globals(); ir_heap_next = IR_HEAP_BASE; IR_ST32(TLS___dispatch_tsd(0), 0x104);
   errno_cell = ir_bump(8); allow_free_cell = ir_bump(8); pending_barrier_block = ir_bump(64);
-  OP = ir_bump(P_SZ_op); STREAM = ir_bump(P_SZ_stream); FDE = ir_bump(P_SZ_fde); CHAN = ir_bump(P_SZ_chan); HANDLER = ir_bump(P_SZ_block_layout);
+  OP = ir_bump(P_SZ_op); OP2 = ir_bump(P_SZ_op); HANDLER2 = ir_bump(P_SZ_block_layout); IR_ST64(HANDLER2 + P_OFF_block_invoke, FN_vp_handler); STREAM = ir_bump(P_SZ_stream); FDE = ir_bump(P_SZ_fde); CHAN = ir_bump(P_SZ_chan); HANDLER = ir_bump(P_SZ_block_layout);
   IR_ST64(HANDLER + P_OFF_block_invoke, FN_vp_handler);
   SYM(in_low); SYM(in_high); SYM(in_length); SYM(in_chunk); SYM(in_cut1); SYM(in_cut2); SYM(in_conv);
   ASSUME(in_high >= 1 && in_low <= in_high);          /* what dispatch_io_set_low_water / set_high_water maintain */
@@ -246,7 +281,7 @@ void harness(void) {
   g_high = in_high;
   IR_ST64(G_dispatch_io_defaults + P_OFF_def_chunk, in_chunk);
   /* channel, descriptor entry, stream */
-  IR_ST32(CHAN + P_OFF_ref, 10); IR_ST32(CHAN + P_OFF_chan_flags, 0); IR_ST64(CHAN + P_OFF_chan_fde, FDE);
+  IR_ST32(CHAN + P_OFF_ref, 9 + NOPS_); IR_ST32(CHAN + P_OFF_chan_flags, 0); IR_ST64(CHAN + P_OFF_chan_fde, FDE);
   IR_ST32(FDE + P_OFF_fde_fd, 5); IR_ST64(FDE + P_OFF_fde_closeq, TOK_CLOSEQ); IR_ST64(FDE + P_OFF_fde_barrq, TOK_BARRQ); IR_ST64(FDE + P_OFF_fde_barrg, TOK_BARRG);
   IR_ST64(FDE + P_OFF_fde_streams + 8 * DIR, STREAM); IR_ST64(FDE + P_OFF_fde_conv, (in_conv & 1) ? CHAN : 0);
   IR_ST64(STREAM + P_OFF_st_dq, TOK_STREAMQ); IR_ST64(STREAM + P_OFF_st_source, TOK_SOURCE);
@@ -271,16 +306,30 @@ void harness(void) {
   WITNESS_REACHED("operation on a closed channel completed");
   return;
 #endif
-  closeq_susp = 1;                                     /* _dispatch_operation_enqueue retained the descriptor entry for the operation */
+  closeq_susp = NOPS_;                                 /* _dispatch_operation_enqueue retained the descriptor entry for each operation */
   _dispatch_stream_enqueue_operation(STREAM, OP, subm);
   ASSERT(resched == 1, "the first operation on an idle stream schedules the stream handler");
   if (DIR == DOP_DIR_WRITE) dispatch_release(subm);   /* the caller's reference */
+#if TWO
+  /* a second operation of the same direction on the same channel, submitted later (real enqueue) */
+  SYM(in_length2); ASSUME(in_length2 >= 1 && in_length2 < (1ull << 40));
+  IR_ST32(OP2 + P_OFF_ref, 0); IR_ST32(OP2 + P_OFF_xref, (u32)-1); IR_ST64(OP2 + P_OFF_op_q, TOK_OPQ); IR_ST32(OP2 + P_OFF_op_dir, DIR); IR_ST32(OP2 + P_OFF_op_type, 0);
+  IR_ST64(OP2 + P_OFF_op_low, in_low); IR_ST64(OP2 + P_OFF_op_high, in_high); IR_ST64(OP2 + P_OFF_op_length, in_length2);
+  IR_ST64(OP2 + P_OFF_op_handler, HANDLER2); IR_ST64(OP2 + P_OFF_op_channel, CHAN); IR_ST64(OP2 + P_OFF_op_fde, FDE);
+  subm2 = DIR == DOP_DIR_READ ? G__dispatch_data_empty : d_new(S2BASE, in_length2);
+  _dispatch_stream_enqueue_operation(STREAM, OP2, subm2);
+  ASSERT(resched == 1, "a further operation on a busy stream does not schedule the stream handler again");
+  if (DIR == DOP_DIR_WRITE) dispatch_release(subm2);
+#endif
   check_inflight_state();                              /* base case: the state right after the enqueue satisfies the invariant */
 #if MODE == 0
   /* ---- bounded history from the initial state ---- */
   for (int s = 0; s < STEPS; s++) {
     /* what other threads do between two runs of the stream handler */
     SYM_AT(in_ev, s); u8 ev = in_ev[s] % 4;
+#ifdef EV0
+    if (s == 0) ev = EV0;                              /* case split by the driver (two-operation harnesses: a symbolic error condition would unroll the handler's pick loop over both operations) */
+#endif
     if (ev == 1) IR_ST32(CHAN + P_OFF_chan_flags, IR_LD32(CHAN + P_OFF_chan_flags) | 1u);                       /* dispatch_io_close(channel, 0) */
     if (ev == 2 || ev == 3) { IR_ST32(CHAN + P_OFF_chan_flags, IR_LD32(CHAN + P_OFF_chan_flags) | 3u); }      /* dispatch_io_close(channel, DISPATCH_IO_STOP) */
     if (os_disposes) break;
@@ -300,6 +349,9 @@ void harness(void) {
 #endif
 #ifdef CHF
   in_chflags = CHF;
+#endif
+#ifdef FDERR
+  in_fderr = FDERR;
 #endif
   _Bool hasbuf = in_hasbuf & 1;      /* the stream handler has run for this operation at least once (stream->op == op): the not-yet-started state is the base case, MODE 0 */
 #if DIR == DOP_DIR_READ
@@ -338,12 +390,22 @@ void harness(void) {
   ASSERT(os_disposes <= 1, "the operation is disposed once");
   ASSERT(done_count <= 1, "DONE: the handler sees done at most once");
   if (completed) {
+    int alive2 = TWO && os_disposes2 == 0;
     ASSERT(done_count == 1, "DONE: a completed operation has shown done to its handler exactly once");
-    ASSERT(grp_leave == 1, "BARRIER: a completed operation leaves the descriptor's barrier group exactly once");
+    ASSERT(grp_leave == 1 + (TWO && !alive2), "BARRIER: a completed operation leaves the descriptor's barrier group exactly once");
     ASSERT(handler_released == 1, "the handler block is released once");
-    ASSERT(closeq_susp == (barrier_blocks == 1), "CLEANUP: every hold on the close queue taken for the operation and its deliveries is dropped when it has completed");
-    ASSERT(IR_LD32(CHAN + P_OFF_ref) == 9, "the channel reference held by the operation is dropped exactly once");
-    for (int i = 0; i < NDATA; i++) if (i < ndata) ASSERT(d_refs[i] == 0, "DATA: every data object created for the operation is released exactly as often as retained");
+    ASSERT(closeq_susp == (barrier_blocks == 1) + alive2, "CLEANUP: every hold on the close queue taken for the operation and its deliveries is dropped when it has completed");
+    ASSERT(IR_LD32(CHAN + P_OFF_ref) == 9 + (u32)alive2, "the channel reference held by the operation is dropped exactly once");
+#if TWO
+    if (alive2) { u64 h = STREAM + P_OFF_st_ops, l2 = OP2 + P_OFF_op_list;
+      ASSERT(IR_LD64(h) == OP2 && IR_LD64(h + 8) == OP2 && IR_LD64(l2) == 0 && IR_LD64(l2 + 8) == 0 && IR_LD64(STREAM + P_OFF_st_op) == 0, "SUBMISSION ORDER: when the first operation completes the second becomes the head of the list and no operation is current");
+      check_untouched2();
+      _Bool running = IR_LD8(STREAM + P_OFF_st_running) & 1;
+      ASSERT((resched == 1 && src_susp == 1 && !running) || (resched == 0 && src_susp == 0 && running) || (barrier_blocks == 1 && resched == 0 && src_susp == 1 && !running), "STUCK: after the first operation completed, the second one has exactly one thing that will run it");
+      WITNESS_REACHED("the first operation completed and the second one is next");
+    } else { ASSERT(done_count2 == 1 && invocations2 == 1 && handler2_released == 1, "DONE: the second operation completed with exactly one done invocation"); WITNESS_REACHED("both operations completed in this step, in submission order"); }
+#endif
+    for (int i = 0; i < NDATA; i++) if (i < ndata) ASSERT(d_refs[i] == ((alive2 && DATA_BASE + 64ull * i == subm2) ? 1 : 0), "DATA: every data object created for the operation is released exactly as often as retained");
     ASSERT(!(rb_live && !rb_owned_by_data), "BUFFER: the read buffer of a completed operation is freed or owned by a data object");
     if (done_err == 0) ASSERT(hard_err == 0, "a descriptor error is reported to the handler");
 #if DIR == DOP_DIR_READ
